@@ -2,7 +2,12 @@ mod effect;
 mod request;
 mod resolve;
 
+#[cfg(not(crux_verif))]
 use std::sync::RwLock;
+
+// same lock, except that a simulated thread which would have to wait yields to its controller
+#[cfg(crux_verif)]
+use crate::verif::RwLock;
 
 pub use effect::Effect;
 pub use request::Request;
